@@ -463,4 +463,24 @@ func init() {
 	ext("C13", "goroutine model (context bound 2 / 3, scheduling points at every pool operation, atomic load and network read / write): two requests served concurrently by one mux, every mix of HTTP transcoding, gRPC and gRPC-web text, payloads of 12 and 2 bytes competing for one recycled 32-byte buffer",
 		HarnessSpec{Name: "VerifH_conc_requests", Concurrent: true, Covers: []string{"http", "grpc", "grpc-web-text"}})
 	replaceOutside("C13", "data-race freedom, true concurrency, the proxy's stream pumps", "data-race freedom as such (no happens-before tracking), more than two concurrent requests, schedules beyond the context bound, interleavings of unsynchronised memory accesses between two scheduling points, the proxy's stream pumps; pooled-buffer aliasing and pooled gzip reader / writer reuse are decided across consecutive AND concurrent requests")
+
+	addProp(&PropSpec{
+		ID: "C10",
+		Harnesses: []HarnessSpec{
+			{Name: "VerifH_proxy", Concurrent: true, Covers: []string{"U", "CS", "SS", "BD", "succeeds", "fails-before", "fails-during", "fails-after", "replies-after-end-of-stream", "returns-without-reading-all", "client-keeps-stream-open"}},
+		},
+		Bounds: map[string]string{
+			"quick":    "one gRPC call through the REAL RegisterConn + createConnHandler + serveGRPC for each streaming shape (unary, client, server, bidirectional); backend scripts: 0..2 replies (exactly 1 / 0 for single-reply shapes), final status OK / NotFound / Canceled / Unavailable, failing before reading, right after the first reply or at the end, reading the request stream first / last / never; client: 0..2 request messages, ending its stream or keeping it open until the call ends, one metadata value; goroutine model with context bound 1 (the proxy's pump goroutine, the backend handler goroutine and the serving goroutine; scheduling points at every channel / WaitGroup / pool / atomic operation and every network read / write of the fakes)",
+			"thorough": "context bound 2",
+		},
+		Assume: []string{
+			"grpc-go's client transport is replaced under the engine: (*grpc.ClientConn).NewStream / Invoke are answered by an in-memory stream (buffered channels) whose far end runs the SAME scripted backend handler that the native replay runs behind a real in-process grpc.Server (bufconn) - every replay therefore compares the model with real grpc-go",
+			"model of the in-memory stream: SendMsg after the call ended returns io.EOF except for the first SendMsg after NewStream (a real transport needs a round trip to learn that); RecvMsg of a call without server streaming returns only when the call has ended and returns its error status (grpc-go's documented behaviour); no flow control (channel capacity 8)",
+			"message bytes are opaque under the engine (they travel as the unknown fields of interpreted dynamicpb messages through a pass-through codec registered as application/grpc+dual); natively the real protobuf codec runs",
+			"the reflection conversation of RegisterConn is the fake one under the engine, a real reflection service natively",
+			"the client -> larking leg is the ResponseWriter / request-body model used by the other drivers (also natively)",
+			"go/ssa (x/tools v0.29.0) as the semantics of the source", "solver verdicts of z3-new (incremental, with one-shot fallback)",
+		},
+		Outside: []string{"status details and trailer metadata set by the backend", "response headers set by the backend (clientStream.Header is not forwarded by larking at all: by reading, not checked)", "calls over the HTTP-transcoding, gRPC-web and WebSocket front ends to a proxied backend", "more than 2 messages per direction, flow control, deadlines and cancellation propagation to the backend", "schedules beyond the context bound", "a client that neither sends a message nor ends its stream"},
+	})
 }
